@@ -25,6 +25,9 @@ TTheorem ==
         IN /\ final => cert
            /\ (PreCheck(q) /\ thr > 0 /\ cert) => final
            /\ DistinctSeq(K)
+           \* a genuine certificate's signature bytes under a mask with one signer swapped for a
+           \* non-signer are not a certificate
+           /\ (c.av # "none" /\ final) => (AltQ(c).mask # q.mask /\ ~CodeFinalWith(AltQ(c), K, thr))
 
 \* witnesses (must be violated): accepted certificates exist, also ones that were shaped at an
 \* earlier stage and survive / do not survive later records, inside a removal window, and for
@@ -46,6 +49,8 @@ EmitCase ==
         [cs |-> c.cs, qs |-> c.qs, t |-> c.t, kind |-> q.kind, chain |-> RoleOf(q.chain),
          mv |-> c.mv, sv |-> c.sv, ver |-> q.ver, msg |-> q.msg, tamper |-> q.tamper,
          mask |-> [i \in 1..64 |-> (i - 1) \in ms],
+         av |-> c.av,
+         altmask |-> [i \in 1..64 |-> (i - 1) \in AltQ(c).mask],
          by |-> [n \in Members |-> n \in q.by],
          roles |-> [n \in Members |-> RoleOf(n)],
          arr |-> IF c.qs = 0 THEN <<>> ELSE <<[node |-> RoleOf(Recs[c.qs].n), ts |-> Recs[c.qs].ts, st |-> Recs[c.qs].st]>>,
